@@ -350,6 +350,16 @@ def run_case(ctx, desc, with_from_dem=False, oracle=True):
         kw["elv_max"] = elv_max
         elv_max_i = math.floor(_frac(elv_max) * den)   # elev <= elv_max  <=>  elev*den <= floor(elv_max*den)
         ctx.count("elv_max")
+    lay = ctx.rng.choice(["C", "C", "C", "F", "T", "strided"])
+    if lay == "F":
+        elev = np.asfortranarray(elev)
+    elif lay == "T":
+        elev = np.ascontiguousarray(elev.T).T
+    elif lay == "strided":
+        big = np.zeros((elev.shape[0], 2 * elev.shape[1]), dtype=elev.dtype)
+        big[:, ::2] = elev
+        elev = big[:, ::2]
+    ctx.count("dem-layout:" + lay)
     before = elev.copy()
     py_fail = []   # failures decided in Python (trivial exact checks)
     try:
